@@ -35,8 +35,7 @@ def kytea_fns(w):
 
 
 def run(chk):
-    w = facts.world("W")
-    chk.configs.add("W")
+    w = C.world_for(chk)
     for rid, txt in (("R17.1", "every read error propagates; only read_exact-based reads (+2 tolerated, followed by a helper read)"), ("R17.2", "type letter table"),
                      ("R17.3", "kind consistency and slice lengths"), ("R17.4", "dictionary offsets, roles, membership, bucket"), ("R17.5", "bias = biases[0]")):
         chk.rule(rid, txt)
